@@ -36,6 +36,8 @@ def main():
         else:
             i += 1
     src = '/tmp/%s-out' % tag
+    if not os.path.exists(os.path.join(src, 'meta.json')):
+        src = os.path.join(V, 'seeded', tag)  # re-evaluation of a change that is already kept
     meta = json.load(open(os.path.join(src, 'meta.json')))
     prop = meta['property']
     checks = checks or [prop]
@@ -46,7 +48,8 @@ def main():
         for f in fs:
             rel = os.path.relpath(os.path.join(root, f), src)
             os.makedirs(os.path.dirname(os.path.join(dst, rel)) or dst, exist_ok=True)
-            shutil.copy(os.path.join(root, f), os.path.join(dst, rel))
+            if os.path.abspath(src) != os.path.abspath(dst):
+                shutil.copy(os.path.join(root, f), os.path.join(dst, rel))
             if os.sep in rel and rel.endswith('.go'):
                 nested.append(rel)
     patch = os.path.join(dst, 'patch.diff')
@@ -133,6 +136,12 @@ def main():
 
 
 def finish(dst, meta, res, ran):
+    try:
+        old = json.load(open(os.path.join(dst, 'meta.json')))
+        if 'first_run' in old and 'first_run' not in meta:
+            meta['first_run'] = old['first_run']
+    except Exception:
+        pass
     meta['confirmed'] = bool(res.get('applies') and res.get('suite_passes_with_patch') and res.get('demo_fails_with_patch') and res.get('demo_passes_without_patch'))
     meta['confirmation'] = res
     meta['what_was_run'] = ran
